@@ -1,4 +1,219 @@
-/-! Line protocol handler for the `dmp` domain (stub until the model exists). -/
+import OFCore.Dump
+import OFCore.Drv.Per
+/-!
+Line protocol handler for the `dmp` domain (property C19). One self-contained case per line:
+
+```
+dmp rt <npost> <token> <token> …      -> OK <P…> <A…> F|<paths> C|<flags>   |  ERR  |  BAD
+```
+
+The tokens describe a rule system and the state of a simulation (fields separated by `|`):
+
+* `E|<key>|<P|G>|<roles>`            an entity of the system, person first; `<roles>` = keys of the
+                                     flattened roles, comma separated, `-` when there is none
+* `V|<name>|<entity>|<vtype>|<unit>|<N|->|<default>`   a variable (`N` = neutralised);
+                                     `<vtype>` = `int|float|bool|str|bytes<w>|date|enum:<Name>/<item>/…`;
+                                     `<default>` = a one-element `<vec>`
+* `P|<key>|<count>|<ids>|<members_entity_id>|<members_role>|<members_position>`   a population
+                                     (lists comma separated, `-` when empty; an id is `x<hex>`;
+                                     a role is its key, `*` for anything that is not a role)
+* `H|<var>|<0|1>`                    a holder (1 = it has a disk store)
+* `A|<var>|<M|D>|<period>|<vec>`     an array held in the memory (M) or disk (D) store;
+                                     `<period>` = `unit/y,m,d/size`
+
+`<vec>` = `i:<ints>` | `f:<p/q,…>` | `b:<T|F,…>` | `s:<x<hex>,…>` | `y<w>:<x<hex>,…>` |
+`d:<ordinals>` | `e:<Name>/<item>/…:<indices>`.
+
+Answer: the simulation `restore sys (dump s)`: its populations (`P|…` as above, in system
+order), every known `(variable, period)` with the array `get_array` returns (`A|<var>|<period>|<vec>`,
+sorted as text, duplicates removed), the files of the dump (`F|` sorted paths joined by `;`, an
+empty directory ends with `/`), and `C|` followed by one `A` (agree) per further calculation
+requested (`<npost>`): the model predicts agreement (theorem `C19_calculations_agree`).
+-/
 namespace OFCore.Drv
-def handleDmp (_args : List String) : String := "BAD"
+open OFCore OFCore.Dump
+
+def dmpList (tok : String) : List String := if tok = "-" then [] else tok.splitOn ","
+
+def dmpShowList (xs : List String) : String := if xs.isEmpty then "-" else ",".intercalate xs
+
+def dmpRat? (s : String) : Option Rat :=
+  match s.splitOn "/" with
+  | [p] => p.toInt?.map (fun i => (i : Rat))
+  | [p, q] => do
+    let a ← p.toInt?
+    let b ← q.toNat?
+    if b = 0 then none else pure (mkRat a b)
+  | _ => none
+
+def dmpShowRat (q : Rat) : String := if q.den = 1 then toString q.num else s!"{q.num}/{q.den}"
+
+def dmpBool? (s : String) : Option Bool := if s = "T" then some true else if s = "F" then some false else none
+
+def dmpHexStr? (s : String) : Option String :=
+  match s.toList with
+  | 'x' :: r => if r.all (fun c => (hexVal c).isSome) then some (String.ofList r) else none
+  | _ => none
+
+def dmpEnum? (s : String) : Option EnumT :=
+  match s.splitOn "/" with
+  | name :: items => if name.isEmpty then none else some ⟨name, items⟩
+  | [] => none
+
+def dmpShowEnum (e : EnumT) : String := "/".intercalate (e.name :: e.items)
+
+def dmpVec? (tok : String) : Option Vec :=
+  match tok.splitOn ":" with
+  | ["i", xs] => (dmpList xs).mapM String.toInt? |>.map (fun l => .plain (.ints l))
+  | ["f", xs] => (dmpList xs).mapM dmpRat? |>.map (fun l => .plain (.floats l))
+  | ["b", xs] => (dmpList xs).mapM dmpBool? |>.map (fun l => .plain (.bools l))
+  | ["s", xs] => (dmpList xs).mapM dmpHexStr? |>.map (fun l => .plain (.strs l))
+  | ["d", xs] => (dmpList xs).mapM String.toInt? |>.map (fun l => .plain (.dates l))
+  | ["e", en, xs] => do
+    let e ← dmpEnum? en
+    let l ← (dmpList xs).mapM String.toInt?
+    pure (.enum e l)
+  | [yw, xs] =>
+    match yw.toList with
+    | 'y' :: w => do
+      let w ← (String.ofList w).toNat?
+      let l ← (dmpList xs).mapM dmpHexStr?
+      pure (.plain (.bytes w l))
+    | _ => none
+  | _ => none
+
+def dmpShowVec (v : Vec) : String :=
+  match v with
+  | .plain (.ints l) => "i:" ++ dmpShowList (l.map toString)
+  | .plain (.floats l) => "f:" ++ dmpShowList (l.map dmpShowRat)
+  | .plain (.bools l) => "b:" ++ dmpShowList (l.map (fun b => if b then "T" else "F"))
+  | .plain (.strs l) => "s:" ++ dmpShowList (l.map ("x" ++ ·))
+  | .plain (.bytes w l) => s!"y{w}:" ++ dmpShowList (l.map ("x" ++ ·))
+  | .plain (.dates l) => "d:" ++ dmpShowList (l.map toString)
+  | .enum e l => "e:" ++ dmpShowEnum e ++ ":" ++ dmpShowList (l.map toString)
+
+def dmpVType? (tok : String) : Option VType :=
+  match tok.splitOn ":" with
+  | ["int"] => some .int
+  | ["float"] => some .float
+  | ["bool"] => some .bool
+  | ["str"] => some .str
+  | ["date"] => some .date
+  | ["enum", en] => (dmpEnum? en).map .enum
+  | [b] =>
+    if b.startsWith "bytes" then ((b.drop 5).toString.toNat?).map .bytes else none
+  | _ => none
+
+def dmpVal? (tok : String) : Option Val :=
+  match dmpVec? tok with
+  | some (.plain (.ints [i])) => some (.int i)
+  | some (.plain (.floats [q])) => some (.float q)
+  | some (.plain (.bools [b])) => some (.bool b)
+  | some (.plain (.strs [s])) => some (.str s)
+  | some (.plain (.bytes w [s])) => some (.bytes w s)
+  | some (.plain (.dates [d])) => some (.date d)
+  | some (.enum e [i]) => some (.enum e i)
+  | _ => none
+
+structure DmpState where
+  ents : List EntityDecl := []
+  vars : List VarDecl := []
+  pops : List Pop := []
+  holders : List Holder := []
+
+def dmpRoles (keys : List String) : List Role :=
+  (List.range keys.length).zip keys |>.map (fun (i, k) => ⟨k, i⟩)
+
+def dmpRoleVal (roles : List Role) (tok : String) : RoleVal :=
+  if tok = "*" then .other
+  else match roles.find? (fun r => r.key = tok) with
+    | some r => .role r
+    | none => .other
+
+def dmpToken (st : DmpState) (tok : String) : Option DmpState :=
+  match tok.splitOn "|" with
+  | ["E", key, pg, roles] =>
+    if pg = "P" ∨ pg = "G" then
+      some { st with ents := st.ents ++ [⟨key, pg = "P", dmpRoles (dmpList roles)⟩] }
+    else none
+  | ["V", name, ent, vt, unit, n, dflt] => do
+    let vt ← dmpVType? vt
+    let u ← DUnit.ofName unit
+    let d ← dmpVal? dflt
+    if n = "N" ∨ n = "-" then
+      pure { st with vars := st.vars ++ [⟨name, ent, vt, u, n = "N", d⟩] }
+    else none
+  | ["P", key, count, ids, mei, roles, pos] => do
+    let e ← st.ents.find? (fun e => e.key = key)
+    let c ← count.toNat?
+    let ids ← (dmpList ids).mapM dmpHexStr?
+    let mei ← (dmpList mei).mapM String.toInt?
+    let pos ← (dmpList pos).mapM String.toInt?
+    pure { st with pops := st.pops ++ [{ entity := e, ids := ids, count := c, membersEntityId := mei,
+                                          membersRole := (dmpList roles).map (dmpRoleVal e.roles),
+                                          membersPosition := pos }] }
+  | ["H", var, d] => do
+    let v ← st.vars.find? (fun v => v.name = var)
+    if d = "0" ∨ d = "1" then
+      pure { st with holders := st.holders ++ [{ var := v, disk := if d = "1" then some [] else none }] }
+    else none
+  | ["A", var, md, per, vec] => do
+    let p ← parsePeriod? per
+    let v ← dmpVec? vec
+    let h ← st.holders.find? (fun h => h.var.name = var)
+    let h' ← (if md = "M" then some { h with mem := upsert h.mem p v }
+              else if md = "D" then h.disk.map (fun d => { h with disk := some (upsert d p v) })
+              else none)
+    pure { st with holders := setHolderIn st.holders h' }
+  | _ => none
+
+def dmpShowPop (p : PopView) : String :=
+  let showRole : RoleVal → String
+    | .role r => r.key
+    | .other => "*"
+  "|".intercalate ["P", p.key, toString p.count, dmpShowList (p.ids.map ("x" ++ ·)),
+    dmpShowList (p.membersEntityId.map toString), dmpShowList (p.membersRole.map showRole),
+    dmpShowList (p.membersPosition.map toString)]
+
+def dmpSorted (xs : List String) : List String :=
+  (xs.toArray.qsort (fun a b => a < b)).toList.eraseDups
+
+def dmpArrays (s : Sim) : List String :=
+  dmpSorted (s.holders.flatMap (fun h =>
+    h.known.map (fun p =>
+      let v := match h.getArray (s.countOf h) p with
+        | some v => dmpShowVec v
+        | none => "none"
+      "|".intercalate ["A", h.var.name, showPeriod p, v])))
+
+def dmpPaths (fs : FS) : List String :=
+  dmpSorted (
+    ["__entities__/"] ++
+    fs.ents.flatMap (fun (k, d) =>
+      if d.isEmpty then [s!"__entities__/{k}/"] else d.map (fun (f, _) => s!"__entities__/{k}/{f}")) ++
+    fs.vars.flatMap (fun (k, d) =>
+      if d.isEmpty then [s!"{k}/"] else d.map (fun (f, _) => s!"{k}/{String.ofList f}")))
+
+def handleDmp (args : List String) : String :=
+  match args with
+  | "rt" :: npost :: toks =>
+    match npost.toNat?, toks.foldlM dmpToken ({} : DmpState) with
+    | some n, some st =>
+      match st.ents with
+      | person :: groups =>
+        if !person.isPerson ∨ groups.any (·.isPerson) then "BAD" else
+        let sys : System := ⟨person, groups, st.vars⟩
+        let s : Sim := ⟨st.pops, st.holders⟩
+        match dumpInto {} s with
+        | .error _ => "ERR"
+        | .ok fs =>
+          match restore sys fs with
+          | .error _ => "ERR"
+          | .ok r =>
+            " ".intercalate (["OK"] ++ r.pops.map (fun p => dmpShowPop p.view) ++ dmpArrays r ++
+              ["F|" ++ ";".intercalate (dmpPaths fs), "C|" ++ String.ofList (List.replicate n 'A')])
+      | [] => "BAD"
+    | _, _ => "BAD"
+  | _ => "BAD"
+
 end OFCore.Drv
